@@ -47,11 +47,11 @@ Qed.
 
 (* ---- witnesses ---------------------------------------------------------------------------- *)
 Definition opts_s2 : eopts :=
-  {| o_sig := Logs; o_queue := true; o_storage := true; o_items_sizer := false; o_cap := 10; o_wfr := false;
+  {| o_sig := Logs; o_queue := true; o_storage := true; o_items_sizer := false; o_cap := 10; o_wfr := false; o_block := false; o_badmarshal := -1;
      o_qbatch := None; o_batcher := None; o_retry := true; o_tracing := true |}.
 
 Definition opts_wfr : eopts :=
-  {| o_sig := Logs; o_queue := false; o_storage := false; o_items_sizer := false; o_cap := 0; o_wfr := false;
+  {| o_sig := Logs; o_queue := false; o_storage := false; o_items_sizer := false; o_cap := 0; o_wfr := false; o_block := false; o_badmarshal := -1;
      o_qbatch := None; o_batcher := Some (100, 0); o_retry := false; o_tracing := false |}.
 
 Definition balance (o : eopts) (st : est) : Prop :=
@@ -102,11 +102,13 @@ Lemma accept_within_capacity o st n c cap :
   s_qsize (offer o st n) <= Z.max (s_qsize st) cap.
 Proof.
   intros Hq Hc Hn. unfold offer. rewrite Hq. unfold over. rewrite Hc.
-  unfold reject, accept, set_led, add_offered.
+  assert (Hns : forall s k, s_qsize (note_send o s k) = s_qsize s) by (intros s k; unfold note_send; destruct (is_wfr o); reflexivity).
+  unfold no_room. unfold reject, accept, set_led, add_offered.
   destruct (q_storage c).
-  - destruct (cap <? _) eqn:E; cbn [s_qsize]; [lia|apply Z.ltb_ge in E; cbn [s_qsize] in E; lia].
-  - destruct (el_size o n =? 0); [cbn [s_qsize]; lia|]. destruct (cap <? el_size o n); [cbn [s_qsize]; lia|].
-    destruct (cap <? _) eqn:E; cbn [s_qsize]; [lia|apply Z.ltb_ge in E; cbn [s_qsize] in E; lia].
+  - destruct (q_block c && (cap <? el_size o n)); [rewrite Hns; cbn [s_qsize]; lia|].
+    destruct (cap <? _) eqn:E; [rewrite Hns; cbn [s_qsize]; lia|]. destruct (n =? o_badmarshal o); rewrite Hns; cbn [s_qsize]; [lia|apply Z.ltb_ge in E; cbn [s_qsize] in E; lia].
+  - destruct (el_size o n =? 0); [rewrite Hns; cbn [s_qsize]; lia|]. destruct (cap <? el_size o n); [rewrite Hns; cbn [s_qsize]; lia|].
+    destruct (cap <? _) eqn:E; rewrite Hns; cbn [s_qsize]; [lia|apply Z.ltb_ge in E; cbn [s_qsize] in E; lia].
 Qed.
 
 (* ---- processor ------------------------------------------------------------------------------ *)
